@@ -52,6 +52,7 @@ FToInt(a)   == Undef     \* floor, saturated to 32 bit
 FUlps(a, b) == Undef     \* distance in ulps, saturated
 FClose(a, b, rel, abs) == Undef
 FSum(s)     == Undef     \* compensated sum of a sequence
+FSeq(s)     == Undef     \* identity on sequences; forces TLC to materialise [i \in 1..n |-> e] once
 FStr(a)     == Undef
 
 -----------------------------------------------------------------------------
